@@ -14,7 +14,7 @@ git diff > /tmp/confirm.$$.patch
 if ! go build ./... ; then echo "CONFIRM: build fails"; cleanup; exit 1; fi
 if ! go test -vet=off -count=1 ./... > /tmp/confirm.$$.log 2>&1; then echo "CONFIRM: suite fails with patch"; grep -v "^ok\|no test files" /tmp/confirm.$$.log | head; rm -f /tmp/confirm.$$.log; cleanup; exit 1; fi
 rm -f /tmp/confirm.$$.log
-for f in "$OUT"/*_test.go; do cp "$f" "$WT/$DEST/zz_seed_$(basename "$f")"; done
+mkdir -p "$WT/$DEST"; for f in "$OUT"/*_test.go; do cp "$f" "$WT/$DEST/zz_seed_$(basename "$f")"; done
 if go test -vet=off -count=1 -run "$RUN" "./$DEST/" > /tmp/confirm.$$.d1 2>&1; then echo "CONFIRM: demo PASSES with the patch (should fail)"; rm -f /tmp/confirm.$$.d1; cleanup; exit 1; fi
 grep -q "^--- FAIL\|^FAIL" /tmp/confirm.$$.d1 || { echo "CONFIRM: demo did not fail cleanly"; head -20 /tmp/confirm.$$.d1; }
 rm -f /tmp/confirm.$$.d1
